@@ -141,4 +141,109 @@ def generate(repo, outdir):
                  " :: ".join(f"MachineState_{n}" for n in order) + " :: nil)%list.")
     text = "\n".join(lines) + "\n"
     write_if_changed(os.path.join(outdir, "Consts.v"), text)
-    return {"Consts.v": len(c)}
+    nt = generate_serial_layout(repo, outdir, c)
+    return {"Consts.v": len(c), "SerialLayout.v": nt}
+
+
+LAYOUT = {}      # what generate_serial_layout read, for the harness to compare with the live objects
+
+
+FMT_SIZE = {"B": 1, "b": 1, "?": 1, "H": 2, "h": 2, "I": 4, "i": 4, "Q": 8, "q": 8, "f": 4, "d": 8}
+
+
+def fmt_width(fmt):
+    """byte width of a process-variable format as struct (little-endian, no padding) lays it out; bit numbers occupy their byte"""
+    if isinstance(fmt, int):
+        return 1
+    import re
+    total, pos = 0, 0
+    for m in re.finditer(r"(\d*)([A-Za-z?])", fmt):
+        if m.start() != pos:
+            raise ConstError(f"unsupported format {fmt!r}")
+        pos = m.end()
+        n, ch = m.group(1), m.group(2)
+        if ch in ("s", "p"):
+            total += int(n or 1)
+        elif ch in FMT_SIZE:
+            total += int(n or 1) * FMT_SIZE[ch]
+        else:
+            raise ConstError(f"unsupported format letter {ch!r} in {fmt!r}")
+    if pos != len(fmt) or not fmt:
+        raise ConstError(f"unsupported format {fmt!r}")
+    return total
+
+
+def generate_serial_layout(repo, outdir, consts):
+    """The process-image layout of the two-channel serial terminals (terminals.py: EL6002, EL6022): every PacketDesc of the
+    Channel structure as (sync manager, byte position, bit or -1, byte width) and every channel's offsets (SM3 = in, SM2 = out)."""
+    from .common import write_if_changed
+    tm = Module(repo, "ebpfcat/terminals.py")
+    sms = {"IN": consts["SyncManager_IN"], "OUT": consts["SyncManager_OUT"]}
+    out = ["(* GENERATED from /repo/ebpfcat/terminals.py by harness/gen_consts.py on every run - do not edit *)",
+           "From Coq Require Import ZArith List.", "Import ListNotations.", "Open Scope Z_scope.", "",
+           "(* (sync manager, byte position, bit number or -1, width in bytes) *)"]
+    count = 0
+
+    def descs(cls_node):
+        res = []
+        for n in cls_node.body:
+            if isinstance(n, ast.Assign) and len(n.targets) == 1 and isinstance(n.targets[0], ast.Name) and isinstance(n.value, ast.Call) \
+                    and isinstance(n.value.func, ast.Name) and n.value.func.id == "PacketDesc":
+                a = n.value.args
+                if len(a) != 3 or n.value.keywords:
+                    raise ConstError(f"PacketDesc of {n.targets[0].id}: expected three positional arguments")
+                if not (isinstance(a[0], ast.Attribute) and isinstance(a[0].value, ast.Name) and a[0].value.id == "SyncManager" and a[0].attr in sms):
+                    raise ConstError(f"PacketDesc of {n.targets[0].id}: sync manager is not SyncManager.IN / SyncManager.OUT")
+                pos = _eval(a[1], {})
+                if isinstance(a[2], ast.Constant) and isinstance(a[2].value, str):
+                    bit, width = -1, fmt_width(a[2].value)
+                else:
+                    bit, width = _eval(a[2], {}), 1
+                    if not 0 <= bit < 8:
+                        raise ConstError(f"PacketDesc of {n.targets[0].id}: bit number {bit}")
+                res.append((n.targets[0].id, sms[a[0].attr], pos, bit, width))
+        return res
+    for term in ("EL6002", "EL6022"):
+        tcls = tm.klass(term)
+        ch = [n for n in tcls.body if isinstance(n, ast.ClassDef) and n.name == "Channel"]
+        if len(ch) != 1:
+            raise ConstError(f"{term}.Channel not found")
+        ch = ch[0]
+        ds = descs(ch)
+        # a Channel derived from another terminal's Channel inherits its descriptors
+        for b in ch.bases:
+            if isinstance(b, ast.Attribute) and b.attr == "Channel" and isinstance(b.value, ast.Name):
+                base = [n for n in tm.klass(b.value.id).body if isinstance(n, ast.ClassDef) and n.name == "Channel"][0]
+                ds = [d for d in descs(base) if d[0] not in {x[0] for x in ds}] + ds
+            elif not (isinstance(b, ast.Name) and b.id == "Struct"):
+                raise ConstError(f"{term}.Channel: unsupported base class")
+        if not ds:
+            raise ConstError(f"{term}.Channel has no PacketDesc")
+        chans = []
+        for n in tcls.body:
+            if isinstance(n, ast.Assign) and len(n.targets) == 1 and isinstance(n.targets[0], ast.Name) and isinstance(n.value, ast.Call) \
+                    and isinstance(n.value.func, ast.Name) and n.value.func.id == "Channel":
+                a = [_eval(x, {}) for x in n.value.args]
+                if n.value.keywords or not 1 <= len(a) <= 3:
+                    raise ConstError(f"{term}.{n.targets[0].id}: unsupported Channel(...) arguments")
+                sm3 = a[0]
+                sm2 = a[1] if len(a) > 1 else sm3       # StructDesc.__init__: sm2 defaults to sm3
+                chans.append((n.targets[0].id, sm3, sm2))
+        if len(chans) < 2:
+            raise ConstError(f"{term}: fewer than two channels found")
+        LAYOUT[term] = {"descs": ds, "chans": chans}
+        out.append(f"Definition {term}_descs : list (Z * Z * Z * Z) :=")
+        out.append("  [" + "; ".join(f"({sm}, {pos}, {'(-1)' if bit < 0 else bit}, {w})" for _, sm, pos, bit, w in ds) + "].")
+        out.append(f"(* names: {', '.join(d[0] for d in ds)} *)")
+        for role in ("transmit_request", "receive_accept", "init_request", "out_string", "transmit_accept", "receive_request", "init_accept", "in_string"):
+            d = [x for x in ds if x[0] == role]
+            if len(d) != 1:
+                raise ConstError(f"{term}.Channel.{role} not found")
+            _, sm, pos, bit, w = d[0]
+            out.append(f"Definition {term}_{role} : Z * Z * Z * Z := ({sm}, {pos}, {'(-1)' if bit < 0 else bit}, {w}).")
+        out.append(f"(* channel offsets: (offset in the input image (SM3), offset in the output image (SM2)) *)")
+        out.append(f"Definition {term}_channels : list (Z * Z) := [" + "; ".join(f"({a}, {b})" for _, a, b in chans) + "].")
+        out.append("")
+        count += len(ds) + len(chans)
+    write_if_changed(os.path.join(outdir, "SerialLayout.v"), "\n".join(out) + "\n")
+    return count
